@@ -55,14 +55,16 @@ func fsTypeToTarType(fsType fs.Type) byte {
 // Mutate fs.Metadata fields to match the given tar header.
 // Does not check for names that go above '.'; caller may want to do that.
 func TarHdrToMetadata(hdr *tar.Header, fmeta *fs.Metadata) (skipMe error, haltMe error) {
-	if path.IsAbs(path.Clean(hdr.Name)) {
-		return nil, Errorf(rio.ErrWareCorrupt, "corrupt tar: absolute path %q is invalid", hdr.Name)
-	}
-	fmeta.Name = fs.MustRelPath(hdr.Name)
+	// Records that are no entries of the fileset come first: their names are not paths of it.
+	//  (GNU tar calls its pax global header "/tmp/GlobalHead.%p.%n".)
 	fmeta.Type, skipMe = tarTypeToFsType(hdr.Typeflag)
 	if skipMe != nil {
 		return skipMe, nil
 	}
+	if path.IsAbs(path.Clean(hdr.Name)) {
+		return nil, Errorf(rio.ErrWareCorrupt, "corrupt tar: absolute path %q is invalid", hdr.Name)
+	}
+	fmeta.Name = fs.MustRelPath(hdr.Name)
 	if fmeta.Type == fs.Type_Invalid {
 		return nil, Errorf(rio.ErrWareCorrupt, "corrupt tar: %q is not a known file type", hdr.Typeflag)
 	}
